@@ -185,6 +185,16 @@ def run(ctx):
     for (name, fam, l), o in zip(cases, outs):
         compare_case(ctx, name, fam, l, o, strict)
     ctx.extra["strict_model_drift"] = strict
+    # churn: fresh lattices that are dropped after use (re-used object addresses), judged by the independent face oracle
+    for name, l in zoo.churn(rng, 40 if ctx.tier == "quick" else 400):
+        try:
+            fails = of.check_plaquettes(l)
+        except Exception as ex:
+            fails = [f"raised {type(ex).__name__}: {ex}"]
+        if fails:
+            ctx.impl_violation(f"{name}: on a freshly built lattice {fails[0]}", dict(case=name, lattice=zoo.lat_to_json(l), failures=[str(f) for f in fails[:5]]))
+        ctx.case((name, l.n_vertices, l.n_edges), nontrivial=l.n_edges >= 3)
+        ctx.count("churn_lattices")
     ctx.assumptions += [
         "float arctan2 ordering and winding are replaced in the model by exact predicates; inputs whose smallest angular gap has sin^2 < 1e-18 are precondition-excluded (counted)",
         "Hopf's Umlaufsatz (turning number -1 <=> positive area for edge-simple contractible face walks) is a hypothesis of plaquettes_eq_positive_area_faces_partial; evaluated exactly on every traced walk",
